@@ -420,3 +420,67 @@ def shrink_files(files, root, pred, budget_s=30):
                     break
                 n = min(len(parts), n * 2)
     return files
+
+
+# --------------------------------------------------------------------------- batch evaluation shared by C03 / C06 / C17
+def evaluate(bindir, exe, wss, noguard=False, model=True, timeout=180):
+    """real run + model replay + comparison + the three oracles, per workspace"""
+    reals = run_symdump_parallel(bindir, wss, timeout=timeout)
+    res = []
+    idx = []
+    for i, (w, r) in enumerate(zip(wss, reals)):
+        pr = c03_problem(r)
+        e = {"ws": w, "real": r, "c03": pr, "model": None, "diffs": [], "c06": [], "c17": [], "nranges": 0}
+        res.append(e)
+        if pr is None:
+            idx.append(i)
+            e["c06"] = c06_oracle(w, r)
+            e["c17"], e["nranges"] = c17_oracle(w, r)
+    if model and idx:
+        blocks = [model_block(wss[i], reals[i], noguard=noguard) for i in idx]
+        models = run_model(exe, blocks)
+        for i, m in zip(idx, models):
+            res[i]["model"] = m
+            res[i]["diffs"] = compare(wss[i], reals[i], m)
+    return res
+
+
+def derived_workspaces(g, rng, n_base, n_prefix, n_edit, n_nonascii, multi=True):
+    """base workspaces from the generator plus the typing states derived from their root text"""
+    out = []
+    import symgen
+    for _ in range(n_base):
+        files, root = g.workspace() if multi else ([["/w/main.td", g.program()]], "/w/main.td")
+        out.append(("generated", files, root))
+        rt = [t for p, t in files if p == root][0]
+        others = [f for f in files if f[0] != root]
+        for t in symgen.prefixes(rt, rng, n_prefix):
+            out.append(("prefix", others + [[root, t]], root))
+        for t in symgen.token_edits(rt, rng, n_edit):
+            out.append(("token-edit", others + [[root, t]], root))
+        for _ in range(n_nonascii):
+            fs = [[p, symgen.inject_nonascii(t, rng)] if (p == root or rng.random() < 0.5) else [p, t] for p, t in files]
+            out.append(("non-ascii", fs, root))
+    return out
+
+
+def corpus_workspaces(rng, n, max_bytes=60000):
+    """workspaces rooted at LLVM-14 .td files (all 39 files present, includes resolve through INCLUDE_DIR=/c)"""
+    root = "/usr/include/llvm-14"
+    files = []
+    for d, _, fs in os.walk(root):
+        for f in sorted(fs):
+            if f.endswith(".td"):
+                p = os.path.join(d, f)
+                files.append(["/c/" + os.path.relpath(p, root), open(p, encoding="utf-8", errors="replace").read()])
+    files.sort()
+    small = [p for p, t in files if len(t) <= max_bytes]
+    rng.shuffle(small)
+    return [(files, p) for p in small[:n]]
+
+
+def replay_obj(prop, e, what, extra=None):
+    o = {"property": prop, "what": what, "files": e["ws"]["files"], "root": e["ws"]["root"]}
+    if extra:
+        o.update(extra)
+    return o
